@@ -51,51 +51,88 @@ def r02a(ctx):
     F = ctx.F
     a = an(F.body(FC))
     fn = FC
-    pushes = [c for c in a.calls('alloc::vec::Vec::push')]
-    loops = a.cfg.loops()
-    rec = [c for c in pushes if _deref(a.arg(c, 1))[0] == 'call' and _last(_deref(a.arg(c, 1))[1]) == 'new' and 'CASChunkSequenceEntry' in _deref(a.arg(c, 1))[1]]
-    dat = [c for c in pushes if c not in rec]
-    if not ctx.check(len(rec) == 1 and len(dat) == 1, 'R02a', fn, 'pushes', '-', 'one record push and one data push', 'expected one CASChunkSequenceEntry push and one data push, found %d and %d' % (len(rec), len(dat))):
-        return
-    r, d = rec[0], dat[0]
-    lp = [l for l in loops.items() if r in l[1] and d in l[1]]
-    if not ctx.check(len(lp) >= 1, 'R02a', fn, 'one pass', a.loc(r), 'record and data are pushed in the same loop iteration'):
-        return
-    lp = min(lp, key=lambda l: len(l[1]))
-    from . import loops as L
-    wp = L.whole_pass(a, lp, lambda z: z[0] == 'param' and z[1] == 1)
-    ctx.check(wp is not None, 'R02a', fn, 'whole pass', a.loc(lp[0]), 'the loop passes over every element of the chunks parameter, in order',
-              'cannot establish that the loop visits every chunk of the parameter once, in order')
-    e = _deref(a.arg(r, 1))
-    h, ln, pos = [uncast(x) for x in e[2]]
-    elem = _path(h)[0] if _path(h)[1] == ('hash',) else None
+    bodies = [a] + [an(b) for p_, b in sorted(F.bodies.items()) if p_.startswith(FC + '::{')]
+    is_param1 = lambda z: _deref(z)[0] == 'param' and _deref(z)[1] == 1
+    PLAIN = ('iter', 'map', 'collect', 'deref', 'into_iter', 'as_slice', 'as_ref', 'cloned', 'copied', 'to_vec', 'from_iter', 'clone')
     is_len_of_data = lambda z, base: uncast(z)[0] in ('call', 'len') and flow.mentions(z, lambda y: y[0] == 'field' and y[2] == 'data' and _strip_sites(y[1]) == _strip_sites(base))
-    ctx.check(elem is not None and is_len_of_data(ln, elem), 'R02a', fn, 'record fields', a.loc(r), 'the record holds the chunk\'s hash and the length of the chunk\'s data',
-              'the record pushed for a chunk is not (c.hash, c.data.len(), ..) of one chunk: %s' % flow.show(e)[:120])
-    dd = _deref(a.arg(d, 1))
-    while dd[0] == 'call' and _last(dd[1]) in ('clone', 'into', 'to_owned', 'from') and dd[2]:
-        dd = _deref(dd[2][0])
-    ctx.check(elem is not None and _path(dd)[1] == ('data',) and _strip_sites(_path(dd)[0]) == _strip_sites(elem), 'R02a', fn, 'data stored', a.loc(d), 'the data stored is that chunk\'s data')
-    # pos: running sum of the stored lengths
+
+    def mapped_over_param(x):
+        """closure body x is the per-element function of a `map` over the chunks parameter (nothing selecting or reordering in between)"""
+        for m in a.calls():
+            t = a.term(m)
+            if _last(t.get('fn', '')) != 'map' or len(t['args']) != 2:
+                continue
+            f_ = uncast(a.arg(m, 1))
+            if f_[0] == 'agg' and f_[1] == 'closure' and f_[2] == x.path:
+                ad = []
+                flow.mentions(a.arg(m, 0), lambda y: y[0] == 'call' and (ad.append(_last(y[1])) or False))
+                return flow.mentions(a.arg(m, 0), lambda y: y[0] == 'param' and y[1] == 1) and all(n_ in PLAIN for n_ in ad)
+        return False
+
+    # --- the per-chunk record
+    recs = [(x, c) for x in bodies for c in x.calls() if 'CASChunkSequenceEntry' in sg(x.term(c).get('fn', '')) and _last(x.term(c).get('fn', '')) == 'new']
+    if not ctx.check(len(recs) == 1, 'R02a', fn, 'record site', '-', 'one site builds the per-chunk record', 'expected one CASChunkSequenceEntry::new site, found %d' % len(recs)):
+        return
+    x, r = recs[0]
+    h, ln, pos = [uncast(x.arg(r, i)) for i in range(3)]
+    elem = _path(h)[0] if _path(h)[1] == ('hash',) else None
+    ctx.check(elem is not None and is_len_of_data(ln, elem), 'R02a', fn, 'record fields', x.loc(r), 'the record holds the chunk\'s hash and the length of the chunk\'s data',
+              'the record built for a chunk is not (c.hash, c.data.len(), ..) of one chunk: %s, %s' % (flow.show(h)[:50], flow.show(ln)[:50]))
+    in_main = x.path == FC
+    lp = None
+    if in_main:
+        from . import loops as L
+        lps = [l for l in x.cfg.loops().items() if r in l[1]]
+        lp = min(lps, key=lambda l: len(l[1])) if lps else None
+        wp = L.whole_pass(x, lp, lambda z: z[0] == 'param' and z[1] == 1) if lp else None
+        ctx.check(wp is not None, 'R02a', fn, 'whole pass', x.loc(r), 'the record is built once per element of a loop that passes over the whole chunks parameter, in order',
+                  'cannot establish that the loop visits every chunk of the parameter once, in order')
+        pushed = [c for c in x.calls('alloc::vec::Vec::push') if c in (lp[1] if lp else ()) and x.rooted_at(x.arg(c, 1), r)]
+        ctx.check(len(pushed) == 1, 'R02a', fn, 'record kept', x.loc(r), 'the record is pushed once in that iteration')
+    else:
+        ctx.check(mapped_over_param(x) and elem is not None and _deref(elem)[0] == 'param', 'R02a', fn, 'whole pass', x.loc(r), 'the record is built by a closure mapped over the whole chunks parameter',
+                  'cannot establish that the per-chunk record closure is mapped over every chunk of the parameter, in order')
+    # --- the offset: running sum of the stored lengths
     pk = paths.expr_place_key(pos)
-    ups = [u for u in updates(a, lp[1]) if u[0] == pk]
-    if ctx.check(pk is not None and len(ups) == 1 and ups[0][1] == 1 and elem is not None and is_len_of_data(ups[0][2], elem), 'R02a', fn, 'offset advance', a.loc(*ups[0][3]) if ups else a.loc(r),
+    ups = [u for u in updates(x, lp[1] if lp else None) if u[0] == pk]
+    if ctx.check(pk is not None and len(ups) == 1 and ups[0][1] == 1 and elem is not None and is_len_of_data(ups[0][2], elem), 'R02a', fn, 'offset advance', x.loc(*ups[0][3]) if ups else x.loc(r),
                  'the recorded offset is a running value advanced once per chunk by the length of that chunk\'s data',
                  'the byte offset recorded for a chunk is not a running sum advanced once per chunk by c.data.len()'):
-        rs = [x for x in reads(a, pk) if x != ups[0][3] and x[0] in lp[1]]
-        bad = [x for x in rs if not precedes(a, x, ups[0][3])]
-        ctx.check(bool(rs) and not bad, 'R02a', fn, 'offset before advance', a.loc(*ups[0][3]), 'the offset recorded for a chunk is read before it advances past that chunk',
+        rs = [y for y in reads(x, pk) if y != ups[0][3] and (lp is None or y[0] in lp[1])]
+        bad = [y for y in rs if not precedes(x, y, ups[0][3])]
+        ctx.check(bool(rs) and not bad, 'R02a', fn, 'offset before advance', x.loc(*ups[0][3]), 'the offset recorded for a chunk is read before it advances past that chunk',
                   'the offset is recorded after it advanced: every chunk\'s recorded start is its end')
-        other = [u for u in updates(a) if u[0] == pk and u != ups[0]]
+        other = [u for y_ in bodies for u in updates(y_) if u[0] == pk and not (y_ is x and u == ups[0])]
         ctx.check(not other, 'R02a', fn, 'offset only', '-', 'nothing else changes the running offset')
-    # the hash
+    # --- the data
+    def is_data_of(e_, base):
+        e_ = _deref(e_)
+        while e_[0] == 'call' and _last(e_[1]) in ('clone', 'into', 'to_owned', 'from') and e_[2]:
+            e_ = _deref(e_[2][0])
+        return _path(e_)[1] == ('data',) and _strip_sites(_path(e_)[0]) == _strip_sites(base)
+    okd = False
+    dsite = '-'
+    if in_main and lp and elem is not None:
+        dp = [c for c in x.calls('alloc::vec::Vec::push') if c in lp[1] and is_data_of(x.arg(c, 1), elem)]
+        okd = len(dp) == 1
+        dsite = x.loc(dp[0]) if dp else '-'
+    if not okd:
+        for y_ in bodies:
+            if y_.path == FC or not mapped_over_param(y_):
+                continue
+            rets = [e_ for (_, _, _, e_) in y_.ret_sites()]
+            if len(rets) == 1 and is_data_of(rets[0], ('param', 2, y_.flow.lname(2))):
+                okd = True
+                dsite = y_.loc(0)
+    ctx.check(okd, 'R02a', fn, 'data stored', dsite, 'the data stored per chunk is that chunk\'s data (same pass, or a map over the same parameter)',
+              'cannot establish that the data list holds c.data of every chunk of the parameter, in order')
+    # --- the hash
     ch = a.calls('merkledb::aggregate_hashes::cas_node_hash')
     if ctx.check(len(ch) == 1, 'R02a', fn, 'cas_node_hash', a.loc(ch[0]) if ch else '-', 'one cas_node_hash call'):
         arg = a.arg(ch[0], 0)
+        okc = False
         cl = []
         flow.mentions(arg, lambda y: y[0] == 'agg' and y[1] == 'closure' and (cl.append(y) or False))
-        over_param = flow.mentions(arg, lambda y: y[0] == 'param' and y[1] == 1)
-        okc = False
         if cl:
             cb = F.bodies.get(cl[0][2])
             if cb is not None:
@@ -104,23 +141,33 @@ def r02a(ctx):
                 if len(rets) == 1 and rets[0][0] == 'agg':
                     fs = dict(rets[0][3])
                     h0, l0 = uncast(fs.get('0', ('?',))), uncast(fs.get('1', ('?',)))
-                    okc = _path(h0)[1] == ('hash',) and is_len_of_data(l0, _path(h0)[0])
-        elif arg and flow.mentions(arg, lambda y: y[0] == 'local'):
-            okc = False
-        # nothing between the parameter and the hash selects, reorders or drops elements
-        PLAIN = ('iter', 'map', 'collect', 'deref', 'into_iter', 'as_slice', 'as_ref', 'cloned', 'copied', 'to_vec', 'from_iter')
-        adapt = []
-        flow.mentions(arg, lambda y: y[0] == 'call' and (adapt.append(_last(y[1])) or False))
-        okc = okc and all(n_ in PLAIN for n_ in adapt)
-        ctx.check(over_param and okc, 'R02a', fn, 'hash input', a.loc(ch[0]), 'the xorb hash is computed over (c.hash, c.data.len()) mapped over the same chunks parameter',
+                    okc = _path(h0)[1] == ('hash',) and is_len_of_data(l0, _path(h0)[0]) and mapped_over_param(ca)
+            adapt = []
+            flow.mentions(arg, lambda y: y[0] == 'call' and (adapt.append(_last(y[1])) or False))
+            okc = okc and all(n_ in PLAIN for n_ in adapt)
+        elif in_main and lp and elem is not None:
+            # a list filled in the same pass with (c.hash, c.data.len())
+            hp = []
+            for c in x.calls('alloc::vec::Vec::push'):
+                if c not in lp[1]:
+                    continue
+                v = _deref(x.arg(c, 1))
+                if v[0] == 'agg' and v[1] == 'tuple':
+                    fs = dict(v[3])
+                    h0, l0 = uncast(fs.get('0', ('?',))), uncast(fs.get('1', ('?',)))
+                    if _path(h0)[1] == ('hash',) and _strip_sites(_path(h0)[0]) == _strip_sites(elem) and is_len_of_data(l0, elem):
+                        hp.append(c)
+            buf = _deref(arg)
+            okc = len(hp) == 1 and _strip_sites(_deref(x.arg(hp[0], 0))) == _strip_sites(buf)
+        ctx.check(okc, 'R02a', fn, 'hash input', a.loc(ch[0]), 'the xorb hash is computed over (c.hash, c.data.len()) of every chunk of the same parameter, in order',
                   'cannot establish that the xorb hash is computed over the (hash, data length) pairs of exactly the chunks that are stored')
         hd = a.calls('mdb_shard::cas_structs::CASChunkSequenceHeader::new')
         if ctx.check(len(hd) == 1, 'R02a', fn, 'header', a.loc(hd[0]) if hd else '-', 'one header'):
-            x = hd[0]
-            ctx.check(a.rooted_at(a.arg(x, 0), ch[0]) and _is_len_of_param(a.arg(x, 1)) and paths.expr_place_key(uncast(a.arg(x, 2))) == pk, 'R02a', fn, 'header fields', a.loc(x),
+            y = hd[0]
+            ctx.check(a.rooted_at(a.arg(y, 0), ch[0]) and _is_len_of_param(a.arg(y, 1)) and (pk is None or paths.expr_place_key(uncast(a.arg(y, 2))) == pk), 'R02a', fn, 'header fields', a.loc(y),
                       'the header records that hash, the number of chunks and the final running offset')
             rets = [e_ for (_, _, _, e_) in a.ret_sites()]
-            ctx.check(len(rets) == 1 and flow.mentions(rets[0], lambda y: y[0] == 'call' and y[-1] == x), 'R02a', fn, 'returned', '-', 'the returned xorb carries that header')
+            ctx.check(len(rets) == 1 and flow.mentions(rets[0], lambda z: z[0] == 'call' and z[-1] == y), 'R02a', fn, 'returned', '-', 'the returned xorb carries that header')
 
 
 def r02b(ctx):
@@ -161,6 +208,14 @@ def r02b(ctx):
     x, c = sites[0]
     rng = []
     flow.mentions(x.arg(c, 0), lambda y: y[0] == 'index' and is_ch(y[1]) and range_parts(y[2]) is not None and (rng.append(y) or False))
+    if not rng:
+        # the hashes may be copied out of the range by an explicit loop: then the body has exactly one range of self.chunk_hashes
+        seen = {}
+        for cb_ in x.calls():
+            for i_ in range(len(x.term(cb_)['args'])):
+                flow.mentions(x.arg(cb_, i_), lambda y: y[0] == 'index' and is_ch(y[1]) and range_parts(y[2]) is not None and (seen.setdefault(repr(_strip_sites(y)), y) and False))
+        if len(seen) == 1:
+            rng = list(seen.values())
     if not ctx.check(len(rng) >= 1, 'R02b', x.path, 'range', x.loc(c), 'the hashes are a range of self.chunk_hashes', 'cannot establish that the verification hash is computed over a range of self.chunk_hashes'):
         return
     S, E = range_parts(rng[0][2])
@@ -180,6 +235,15 @@ def r02b(ctx):
         rs = [r_ for r_ in reads(x, sk) if r_ != ups[0][3]]
         bad = [r_ for r_ in rs if not precedes(x, r_, ups[0][3])]
         ctx.check(bool(rs) and not bad, 'R02b', x.path, 'cursor before advance', x.loc(*ups[0][3]), 'the cursor is read before it advances past the segment')
+        # every segment advances the cursor: no path of the per-segment step skips the advance (seed C02b: a memoised hit returned early)
+        ub = ups[0][3][0]
+        if lps:
+            from . import loops as L_
+            every = L_.every_iteration_passes(x, min(lps, key=lambda l: len(l[1])), ub)
+        else:
+            every = all(rb == ub or x.cfg.must_pass(rb, via_blocks=[ub]) for rb in x.cfg.returns)
+        ctx.check(every, 'R02b', x.path, 'advance on every path', x.loc(*ups[0][3]), 'every path of the per-segment step advances the cursor',
+                  'a path of the per-segment step yields an entry without advancing the cursor over that segment\'s chunks: every later segment is verified against the wrong chunks')
     # the entry produced per segment is built from that range hash, one per element of file_info
     rets = [e_ for (_, _, _, e_) in x.ret_sites()] if x.path != FIN else []
     if rets:
